@@ -51,10 +51,15 @@ def accumulative(ctx, dn, until):
 def run(ctx, dn):
     if ctx.tier == "quick":
         _hist.exhaustive(ctx, dn, battery, 1, two_pairs_len=2, tmax=3, spans=(None, 2))
-        _hist.random_histories(ctx, dn, battery, until=ctx.budget_s * 0.3, every=3)
-        accumulative(ctx, dn, until=2)
+        _hist.second_life(ctx, dn, battery, 2)
+        _hist.long_timelines(ctx, dn, battery, 2)
+        _hist.random_histories(ctx, dn, battery, until=ctx.budget_s * 0.3, every=3, clears=True)
+        accumulative(ctx, dn, until=3)
+        _hist.stress(ctx, dn, battery, 400, every=200)
     else:
         _hist.exhaustive(ctx, dn, battery, 2, two_pairs_len=2)
-        _hist.random_histories(ctx, dn, battery, until=ctx.budget_s * 0.3, every=2)
+        _hist.second_life(ctx, dn, battery, 20)
+        _hist.long_timelines(ctx, dn, battery, 20)
+        _hist.random_histories(ctx, dn, battery, until=ctx.budget_s * 0.3, every=2, clears=True)
         accumulative(ctx, dn, until=15)
         _hist.stress(ctx, dn, battery, 3000, every=300)
